@@ -361,6 +361,72 @@ var c02Traces = []traceCase{
 		"root.jst": "JSIGHT 0.3\nINCLUDE inc.jst\n", "inc.jst": "TYPE @t\n{}\nTYPE @t\n{}\n"}, Trace: []string{"inc.jst:3", "root.jst:2"}},
 }
 
+// eachPendingChain enumerates include chains f0 (root) -> f1 -> ... -> fD in
+// which file L ends its own text with a faulty directive directly before its
+// INCLUDE: the fault is found only after the next file (and, when that file
+// starts with its own INCLUDE, several files) has been entered. The trace must
+// be that of file L.
+func eachPendingChain(yield func(traceCase) bool) {
+	type pend struct {
+		name, text string
+		errLine    int // line of the diagnostic inside text (0-based)
+	}
+	pends := []pend{
+		{"title-under-response", "GET /a\n  200 any\n    Title \"x\"\n", 2},
+		{"response-at-top", "200 any\n", 0},
+		{"title-at-top", "Title \"x\"\n", 0},
+		{"tag-without-name", "TAG\n", 0},
+		{"server-without-name", "SERVER\n", 0},
+		{"paste-at-top-of-undefined", "PASTE @nope\n", 0},
+		{"second-version", "INFO\n  Version 1\n  Version 2\n", 2},
+	}
+	prefixes := []string{"", "# c\n", "\n\n###\n block\n###\n"}
+	name := func(i int) string {
+		if i == 0 {
+			return "root.jst"
+		}
+		return "f" + itoa(i) + ".jst"
+	}
+	for depth := 1; depth <= 4; depth++ {
+		for L := 0; L < depth; L++ {
+			for _, pd := range pends {
+				for pi, prefix := range prefixes {
+					files := map[string]string{}
+					incLine := make([]int, depth)
+					faultLine := 0
+					for i := 0; i < depth; i++ {
+						txt := ""
+						if i == 0 {
+							txt = "JSIGHT 0.3\n"
+						}
+						if i > 0 || pi > 0 {
+							txt += prefix
+						}
+						if i == L {
+							faultLine = strings.Count(txt, "\n") + 1 + pd.errLine
+							txt += pd.text
+						}
+						incLine[i] = strings.Count(txt, "\n") + 1
+						txt += "INCLUDE " + name(i+1) + "\n"
+						files[name(i)] = txt
+					}
+					files[name(depth)] = "TYPE @t\n{}\n"
+					var trace []string
+					if L > 0 {
+						trace = append(trace, name(L)+":"+itoa(faultLine))
+						for i := L - 1; i >= 0; i-- {
+							trace = append(trace, name(i)+":"+itoa(incLine[i]))
+						}
+					}
+					if !yield(traceCase{Name: "pending:" + pd.name, Files: files, Trace: trace}) {
+						return
+					}
+				}
+			}
+		}
+	}
+}
+
 func traceCheck(c traceCase, info *vlib.Info) *vlib.Failure {
 	info.NonTrivial = true
 	info.Class("regression-trace")
@@ -508,6 +574,20 @@ func TestC02(t *testing.T) {
 			}
 		}
 	}, traceCheck)
+	vlib.Enum(h, "pending-directive-before-include-chains", true, func(yield func(traceCase) bool) {
+		i := 0
+		eachPendingChain(func(c traceCase) bool {
+			i++
+			return !h.Mine(i) || yield(c)
+		})
+	}, func(c traceCase, info *vlib.Info) *vlib.Failure {
+		f := traceCheck(c, info)
+		if f != nil {
+			f.Key = "trace-of-" + c.Name
+		}
+		info.Class("pending-directive-chain")
+		return f
+	})
 	vlib.Enum(h, "fixtures-3-newline-conventions", false, func(yield func(string) bool) {
 		i := 0
 		for _, c := range vlib.Corpus() {
